@@ -109,11 +109,17 @@ func getAlignedMemoryAddress(addrs []int32) comp.AlignedAddress {
 }
 
 func (cc *cacheController) coRead(r ccReadReq) ccReadResp {
+	// A line this core holds Modified is read under its exclusive lock
+	exclusive := cc.msi.getState(cc.id, r.addrs) == modified
 	resp, post, sem := cc.msi.rLock(cc.id, r.addrs)
 	if resp.wait {
 		return ccReadResp{}
 	}
-	cc.rlockSems[getAlignedMemoryAddress(r.addrs)] = sem
+	if exclusive {
+		cc.lockSems[getAlignedMemoryAddress(r.addrs)] = sem
+	} else {
+		cc.rlockSems[getAlignedMemoryAddress(r.addrs)] = sem
+	}
 	return cc.read.ExecuteWithCheckpoint(r, func(r ccReadReq) ccReadResp {
 		for _, pending := range resp.pendings {
 			if !pending.isDone() {
@@ -171,6 +177,7 @@ func (cc *cacheController) coReadFromL1(r ccReadReq) ccReadResp {
 		cc.post = nil
 		cc.read.Reset()
 		delete(cc.rlockSems, getAlignedMemoryAddress(r.addrs))
+		delete(cc.lockSems, getAlignedMemoryAddress(r.addrs))
 		return ccReadResp{data, true}
 	})
 }
